@@ -54,6 +54,9 @@ func histSources(kind string, inline bool) (entry string, files map[string]strin
 		main = "a{{ 'unclosed }}b" + main
 	case kind == "bigtail":
 		main = "{{ }}{{ " + strings.Repeat("a ", 8000000) + "}}" + main
+	case kind == "deeprej":
+		// read to its end, then refused: an interpolated string of 5200 parts is a chain deeper than the parser's bound
+		main = main + `{{ "` + strings.Repeat("#{x}", 5200) + `" }}` + "tail{{ x }}"
 	case kind == "opsplit":
 		// a syntax error first, then every two-word operator with its words two blanks, a TAB and a line break apart
 		main = "{% foo %}{{ a is  not b }}{{ a not\n in b }}{{ a starts\twith b }}{{ a ends   with b }}{{ a is not\tb }}" + main
